@@ -656,6 +656,41 @@ def task_fixed(ctx):
     if str(f) != "" or repr(f) != "formula('')" or E["formula"](str(f)).structure != tuple():
         ctx.violation("c13:empty", "empty formula prints %r / %r" % (str(f), repr(f)), {"kind": "empty"})
     ctx.case(("public", ""), nontrivial=False, sample={"printed": ""}, cls=["source:empty"])
+    # counts of other numeric types (decimal.Decimal, fractions.Fraction, numpy scalars) print like the float of the
+    # same value - six significant digits, positional - and the text parses back to those counts
+    import numpy as np
+    from fractions import Fraction as Fr
+    texts = ["CaCO3", "Fe{3+}2O{2-}3", "(H2O)2NaCl", "D2O"]
+    values = ["0.1234567", "1234567", "2.00000", "0.333333333", "12.5", "1000000", "0.000123456789", "3"]
+    for t in texts:
+        for vtext in values:
+            for kind, make in (("Decimal", Decimal), ("Fraction", Fr), ("np.float64", lambda s: np.float64(float(s))),
+                               ("np.float32", lambda s: np.float32(float(s)))):
+                n = make(vtext)
+                case = {"kind": "numeric-type", "text": t, "value": vtext, "type": kind}
+                ctx.case(("numeric-type", t, vtext, kind), nontrivial=True, sample=case, cls=["count-type:" + kind])
+                try:
+                    # Decimal counts are multiplied in the caller's decimal context: a caller who uses them works at a
+                    # precision that holds them, whatever the ambient layer has set for the thread
+                    with decimal.localcontext(decimal.Context(prec=40)):
+                        g = n * E["formula"](t)
+                        got = str(g)
+                except Exception as e:  # noqa  (a type the arithmetic rejects: nothing to print)
+                    ctx.count("count-type:%s:rejected:%s" % (kind, type(e).__name__))
+                    continue
+                want = str(float(n) * E["formula"](t))
+                if got != want:
+                    ctx.violation("c13:count-type:" + kind, "str(%s(%r) * formula(%r)) = %r, with the float of the same value %r"
+                                  % (kind, vtext, t, got, want), case)
+                    continue
+                try:
+                    back = E["formula"](got)
+                except Exception as e:  # noqa
+                    ctx.violation("c13:count-type:" + kind + ":reparse", "%r (printed for %s(%r) * %r) does not parse: %s"
+                                  % (got, kind, vtext, t, e), case)
+                    continue
+                if back != E["formula"](want):
+                    ctx.violation("c13:count-type:" + kind + ":reparse", "%r parses to %r" % (got, back.structure), case)
 
 
 def tasks(tier):
